@@ -9,6 +9,14 @@ def compare(case, obs):
         return [f"generation failed: {obs['error']}"]
     if obs['syntax_errors']:
         diffs.append(f"syntax/JSON errors: {obs['syntax_errors'][:3]}")
+    # "imports ... against the DECLARED runtime dependencies": every module the package imports unconditionally is provided
+    # by a distribution listed in setup.py (the harness' own dependency package other.dep.v1 has no distribution)
+    und = featrun.undeclared_imports(obs.get('setup'), ('acme', 'other'))
+    if und:
+        diffs.append(f'undeclared runtime dependencies: {und[:4]}')
+    declared = set((obs.get('setup') or {}).get('dependencies') or [])
+    if not set(case.get('dists', [])) <= declared:
+        diffs.append(f"setup.py declares {sorted(declared)}; predicted at least {sorted(case.get('dists', []))}")
     imp = obs.get('import')
     if imp is None:
         return diffs
